@@ -9,7 +9,8 @@ This is the weakest claim of the twenty: only structural necessary conditions of
              subtract it) and every consumer adds the track offset back (text rendering x2, track ranges x2)
   C20.flow   the lead-out offset is the stream length handed to Cuesheet::parse; ShortLeadOut is raised when the last index
              is at or beyond it; CD-DA layout is chosen iff the length is a multiple of 588
-  C20.panic  (see C12: the importer is part of the metadata entry points audited there)
+  C20.total  the importer, Cuesheet::display and the cue-sheet offset types contain no undischarged panic-capable site and
+             keep their guards (the cue-sheet part of C12's panic audit and guard rules, composed)
 Not decided: parser correctness on all well-formed texts (value-level).
 """
 from rules.common import *
@@ -197,3 +198,5 @@ def run(ctx, rep):
     rep.floor("C20.flow", "lead-out constructors", len(lo), 2)
     from rules import C11 as _C11
     compose(ctx, rep, "C11", "C20.block", r"^C11\.isrc$")
+    # the importer, the text rendering and the offset types are total (the part of C12's audit that concerns cue sheets)
+    compose(ctx, rep, "C12", "C20.total", r"^C12\.(panic|guard)$", key_only=r"(?i)cuesheet|Timestamp|CDDAOffset|MM:SS:FF|cue import")
